@@ -74,6 +74,7 @@ public:
    bool IsParenOpen() const;
    bool IsParenClose() const;
    bool IsBraceClose() const;
+   bool IsBraceOpen() const;
    bool SafeToDeleteNl() const;
    bool IsSamePreproc(const Chunk *other) const;
    void Swap(Chunk *other);
